@@ -8,8 +8,10 @@
     This file contains only the property theorems, each closed by [exact], with
     [Print Assumptions] beneath.  Models: Model/ZoneSel.v, EnumBitmap.v, Temporal.v,
     XorKey.v; proofs: Proofs/EnumBitmapProofs.v, TemporalProofs.v, XorKeyProofs.v.
-    [select_*] is what a query scans: the pruner's answer, or the field selector's
-    fallback when the pruner answered [None] (regenerated from the Rust text). *)
+    [select_*] is what a query scans ([FieldSelector::select_for_segment], regenerated
+    from the Rust text): all zones of the segment ([all]) when the strategy does not serve
+    the operator, else the pruner's answer, else the fallback for a [None].
+    State after the fix round (f801704 selector fallback, db7c428 pre-1970 instants). *)
 From Coq Require Import NArith ZArith List.
 From Snel Require Import Base.Bytes Model.ZoneSel Model.EnumBitmap Model.Temporal Model.XorKey.
 From Snel Require Import Proofs.EnumBitmapProofs Proofs.TemporalProofs Proofs.XorKeyProofs.
@@ -40,19 +42,18 @@ Theorem C08b_enum_neq_sound : forall variants zones ix zid vals lit all,
 Proof. exact enum_neq_sound. Qed.
 Print Assumptions C08b_enum_neq_sound.
 
-(** FALSE of the code: [!=] with a literal that is not a declared variant returns no zone
-    although every row differs from it (known class EnumNeqUndeclaredLiteral). *)
-Theorem C08b_enum_neq_undeclared_refuted :
-  exists variants zones ix zid vals lit all,
-    EnumBitmap.build_all variants zones = Some ix /\ NoDup (map fst zones) /\ In (zid, vals) zones /\
-    (forall v, In v vals -> In v variants) /\
-    (exists v, In v vals /\ EnumBitmap.row_matches ONeq v lit = true) /\
-    ~ In zid (select_enum (Some ix) all ONeq lit).
-Proof. exact enum_neq_undeclared_refuted. Qed.
-Print Assumptions C08b_enum_neq_undeclared_refuted.
+(** NOW TRUE (f801704; was C08b_enum_neq_undeclared_refuted): [!=] with a literal that is
+    not a declared variant scans every zone of the segment, with or without a loadable index. *)
+Theorem C08b_enum_neq_undeclared_sound : forall ix variants lit all zid,
+  (match ix with Some x => e_variants x = variants | None => True end) ->
+  ~ In lit variants ->
+  In zid all ->
+  In zid (select_enum ix all ONeq lit).
+Proof. exact enum_neq_undeclared_sound. Qed.
+Print Assumptions C08b_enum_neq_undeclared_sound.
 
 (** FALSE of the code: an operator other than [=] / [!=] on an enum column returns no zone
-    (known class EnumRangeOp). *)
+    (known class EnumRangeOp; NOT repaired by f801704, whose enum arm falls back for [!=] only). *)
 Theorem C08b_enum_range_op_refuted :
   exists variants zones ix zid vals lit all,
     EnumBitmap.build_all variants zones = Some ix /\ In (zid, vals) zones /\ In lit variants /\
@@ -79,13 +80,15 @@ Theorem C08b_enum_build_ok : forall variants z0 vals0 rest,
 Proof. exact enum_build_ok. Qed.
 Print Assumptions C08b_enum_build_ok.
 
-(** The strongest true statement: outside the known classes, for columns that hold only
-    declared variants (STORE validation, C06), every operator and literal is sound. *)
+(** The strongest true statement, STRONGER than before the fix round: for columns that hold
+    only declared variants (STORE validation, C06), [=] and [!=] are sound for EVERY literal,
+    declared or not; the only known class left is an operator other than [=] / [!=]. *)
 Theorem C08b_enum_outside_known : forall variants zones ix zid vals op lit all,
-  enum_known variants op lit = false ->
+  enum_known op = false ->
   EnumBitmap.build_all variants zones = Some ix ->
   NoDup (map fst zones) ->
   In (zid, vals) zones ->
+  In zid all ->
   (forall v, In v vals -> In v variants) ->
   (exists v, In v vals /\ EnumBitmap.row_matches op v lit = true) ->
   In zid (select_enum (Some ix) all op lit).
@@ -95,59 +98,42 @@ Print Assumptions C08b_enum_outside_known.
 (** ** Temporal calendar + per-zone index *)
 Open Scope Z_scope.
 
-(** All of [=, >, >=, <, <=]; any number of zones, any value lists (other zones may hold
-    anything); timestamps on hour/day boundaries included: a zone without negative
-    timestamps that holds a row satisfying a non-negative probe is a candidate, provided
-    the day buckets of that row and of the probe start below 2^32. *)
-Theorem C08b_temporal_sound_nonneg : forall is_ts zones zid vals t op l v all,
+(** NOW TRUE for pre-1970 data and negative probes (db7c428; was C08b_temporal_sound_nonneg,
+    C08b_temporal_negative_zone_refuted, C08b_temporal_negative_probe_refuted).
+    All of [=, >, >=, <, <=]; any number of zones; ANY value lists of ANY sign (for the
+    fixed [timestamp] column, [mode = 0], the zone must hold no negative value; payload
+    datetime fields are [mode = 1]); timestamps on hour/day boundaries included; any
+    integer / time-string probe of any sign: a zone holding a row that satisfies the probe
+    is a candidate, provided the day buckets (clamped at 0) of that row and of the probe
+    start below 2^32. *)
+Theorem C08b_temporal_sound : forall mode is_ts zones zid vals t op l v all,
   NoDup (map fst zones) -> In (zid, vals) zones -> In t vals ->
-  (forall u, In u vals -> 0 <= u < 2 ^ 63) ->
-  lit_value l = Some (LVInt v) -> 0 <= v ->
+  (mode = 0%N -> forall u, In u vals -> 0 <= u) ->
+  lit_value l = Some (LVInt v) ->
   day_in_u32 v -> day_in_u32 t ->
   In op [OEq; OGt; OGte; OLt; OLte] ->
   Temporal.row_matches op t (LVInt v) = true ->
-  In zid (select_temporal is_ts (Temporal.build zones) all op l).
-Proof. exact temporal_sound_nonneg. Qed.
-Print Assumptions C08b_temporal_sound_nonneg.
+  In zid (select_temporal is_ts (Temporal.build mode zones) all op l).
+Proof. exact temporal_sound. Qed.
+Print Assumptions C08b_temporal_sound.
 
-(** [=] is sound for every magnitude (truncated bucket ids only collide, never reorder). *)
-Theorem C08b_temporal_eq_sound_any_magnitude : forall is_ts zones zid vals t l v all,
+(** [=] is sound for every magnitude and sign (truncated bucket ids only collide, never reorder). *)
+Theorem C08b_temporal_eq_sound_any_magnitude : forall mode is_ts zones zid vals t l v all,
   NoDup (map fst zones) -> In (zid, vals) zones -> In t vals ->
-  (forall u, In u vals -> 0 <= u < 2 ^ 63) ->
+  (mode = 0%N -> forall u, In u vals -> 0 <= u) ->
   lit_value l = Some (LVInt v) ->
   Temporal.row_matches OEq t (LVInt v) = true ->
-  In zid (select_temporal is_ts (Temporal.build zones) all OEq l).
+  In zid (select_temporal is_ts (Temporal.build mode zones) all OEq l).
 Proof. exact temporal_eq_sound_any_magnitude. Qed.
 Print Assumptions C08b_temporal_eq_sound_any_magnitude.
 
-(** FALSE of the code: a zone that also holds a negative timestamp is never a candidate
-    (known class TemporalNegativeValueInZone). *)
-Theorem C08b_temporal_negative_zone_refuted :
-  exists zones zid vals t l v,
-    NoDup (map fst zones) /\ In (zid, vals) zones /\ In t vals /\
-    lit_value l = Some (LVInt v) /\ 0 <= v /\ Temporal.row_matches OEq t (LVInt v) = true /\
-    ~ In zid (select_temporal false (Temporal.build zones) [zid] OEq l).
-Proof. exact temporal_negative_zone_refuted. Qed.
-Print Assumptions C08b_temporal_negative_zone_refuted.
-
-(** FALSE of the code: a negative probe is clamped to 0, so [> v] with [v < 0] misses
-    rows at 0 (known class TemporalNegativeProbeGt). *)
-Theorem C08b_temporal_negative_probe_refuted :
-  exists zones zid vals t l v,
-    NoDup (map fst zones) /\ In (zid, vals) zones /\ In t vals /\ (forall u, In u vals -> 0 <= u) /\
-    lit_value l = Some (LVInt v) /\ Temporal.row_matches OGt t (LVInt v) = true /\
-    ~ In zid (select_temporal false (Temporal.build zones) [zid] OGt l).
-Proof. exact temporal_negative_probe_refuted. Qed.
-Print Assumptions C08b_temporal_negative_probe_refuted.
-
-(** FALSE of the code: [!=] on a temporal field returns no zone (known class TemporalNeq). *)
-Theorem C08b_temporal_neq_refuted :
-  exists zones zid vals t l v,
-    NoDup (map fst zones) /\ In (zid, vals) zones /\ In t vals /\ (forall u, In u vals -> 0 <= u) /\
-    lit_value l = Some (LVInt v) /\ 0 <= v /\ Temporal.row_matches ONeq t (LVInt v) = true /\
-    ~ In zid (select_temporal false (Temporal.build zones) [zid] ONeq l).
-Proof. exact temporal_neq_refuted. Qed.
-Print Assumptions C08b_temporal_neq_refuted.
+(** NOW TRUE (f801704; was C08b_temporal_neq_refuted): [!=] and [IN] on a temporal field scan
+    every zone of the segment, whatever the index, the data and the literal. *)
+Theorem C08b_temporal_neq_all_zones : forall is_ts ix all op l,
+  op = ONeq \/ op = OIn ->
+  select_temporal is_ts ix all op l = all.
+Proof. exact temporal_neq_all_zones. Qed.
+Print Assumptions C08b_temporal_neq_all_zones.
 
 (** FALSE of the code: bucket ids are truncated to u32 but compared by order; a probe in
     the year 2106 or later misses present-day zones (known class TemporalBeyondU32). *)
@@ -155,7 +141,7 @@ Theorem C08b_temporal_u32_wrap_refuted :
   exists zones zid vals t l v,
     NoDup (map fst zones) /\ In (zid, vals) zones /\ In t vals /\ (forall u, In u vals -> 0 <= u) /\
     lit_value l = Some (LVInt v) /\ 0 <= v /\ Temporal.row_matches OLte t (LVInt v) = true /\
-    ~ In zid (select_temporal false (Temporal.build zones) [zid] OLte l).
+    ~ In zid (select_temporal false (Temporal.build 1 zones) [zid] OLte l).
 Proof. exact temporal_u32_wrap_refuted. Qed.
 Print Assumptions C08b_temporal_u32_wrap_refuted.
 
@@ -164,20 +150,21 @@ Theorem C08b_temporal_float_literal_refuted :
   exists zones zid vals t l n d,
     NoDup (map fst zones) /\ In (zid, vals) zones /\ In t vals /\ (forall u, In u vals -> 0 <= u) /\
     lit_value l = Some (LVRat n d) /\ Temporal.row_matches OLt t (LVRat n d) = true /\
-    ~ In zid (select_temporal false (Temporal.build zones) [zid] OLt l).
+    ~ In zid (select_temporal false (Temporal.build 1 zones) [zid] OLt l).
 Proof. exact temporal_float_literal_refuted. Qed.
 Print Assumptions C08b_temporal_float_literal_refuted.
 
-(** The strongest true statement: outside the five known classes every operator, every
-    literal with a numeric meaning (integer, time string, u64 string), every i64 data. *)
-Theorem C08b_temporal_outside_known : forall is_ts zones zid vals t op l lv all,
-  NoDup (map fst zones) -> In (zid, vals) zones -> In t vals ->
-  (forall u, In u vals -> - 2 ^ 63 <= u < 2 ^ 63) ->
+(** The strongest true statement, STRONGER than before the fix round: every operator
+    ([!=], [IN] included), every literal with a meaning, data of any sign; the known class
+    shrank from five disjuncts to two (Float64 literal; range operator beyond the u32 day
+    buckets) and now speaks about the matching row only. *)
+Theorem C08b_temporal_outside_known : forall mode is_ts zones zid vals t op l lv all,
+  NoDup (map fst zones) -> In (zid, vals) zones -> In t vals -> In zid all ->
+  (mode = 0%N -> forall u, In u vals -> 0 <= u) ->
   lit_value l = Some lv ->
-  match lv with LVInt v => - 2 ^ 63 <= v < 2 ^ 64 | LVRat _ _ => True end ->
-  temporal_known vals op l = false ->
+  temporal_known t op l = false ->
   Temporal.row_matches op t lv = true ->
-  In zid (select_temporal is_ts (Temporal.build zones) all op l).
+  In zid (select_temporal is_ts (Temporal.build mode zones) all op l).
 Proof. exact temporal_outside_known. Qed.
 Print Assumptions C08b_temporal_outside_known.
 
@@ -221,31 +208,37 @@ Theorem C08b_xor_field_sound :
 Proof. exact xor_field_sound. Qed.
 Print Assumptions C08b_xor_field_sound.
 
-(** FALSE of the code: [!=] routed to the zone xor index returns no zone once the segment
-    is no longer in flight, for every filter implementation (known class XorNonEqOperator). *)
-Theorem C08b_xor_neq_refuted :
-  exists (zones : list (N * list (option scalar))) (zid : N) (cells : list (option scalar)) (c l : scalar),
-    NoDup (map fst zones) /\ In (zid, cells) zones /\ In (Some c) cells /\
-    value_to_string c <> value_to_string l /\ value_to_string l <> None /\
-    forall (fuse : Type) (fbuild : list N -> option fuse) (fcontains : fuse -> N -> bool) all,
-      ~ In zid (select_zxf fuse fcontains (build_for_field fuse fbuild zones) false all ONeq l).
-Proof. exact xor_neq_refuted. Qed.
-Print Assumptions C08b_xor_neq_refuted.
+(** NOW TRUE (f801704; was C08b_xor_neq_refuted): for an operator other than [=] the zone
+    xor index and the presence filter are not consulted; every zone of the segment is
+    scanned, for every filter implementation, in flight or not. *)
+Theorem C08b_xor_non_eq_all_zones :
+  forall (fuse : Type) (fcontains : fuse -> N -> bool) ix inflight all op l,
+    op <> OEq -> select_zxf fuse fcontains ix inflight all op l = all.
+Proof. exact xor_non_eq_all_zones. Qed.
+Print Assumptions C08b_xor_non_eq_all_zones.
 
-Theorem C08b_xor_outside_known :
+Theorem C08b_xor_presence_non_eq_all_zones :
+  forall (fuse : Type) (fcontains : fuse -> N -> bool) f all op l,
+    op <> OEq -> select_xf fuse fcontains f all op l = all.
+Proof. exact xor_presence_non_eq_all_zones. Qed.
+Print Assumptions C08b_xor_presence_non_eq_all_zones.
+
+(** No known class is left for the zone xor index (was C08b_xor_outside_known with the
+    exclusion [xor_known]): EVERY operator is sound. *)
+Theorem C08b_xor_sound_all_operators :
   forall (fuse : Type) (fbuild : list N -> option fuse) (fcontains : fuse -> N -> bool),
   (forall ks f k, fbuild ks = Some f -> In k ks -> fcontains f k = true) ->
   forall zones zid cells c l s op inflight all,
-    xor_known op = false ->
+    In zid all ->
     NoDup (map fst zones) -> In (zid, cells) zones -> In (Some c) cells ->
     value_to_string c = Some s -> value_to_string l = Some s ->
     fbuild (zone_keys cells) <> None ->
     In zid (select_zxf fuse fcontains (build_for_field fuse fbuild zones) inflight all op l).
-Proof. exact xor_outside_known. Qed.
-Print Assumptions C08b_xor_outside_known.
+Proof. exact xor_sound_all_operators. Qed.
+Print Assumptions C08b_xor_sound_all_operators.
 
 (** Latent: a zone whose BinaryFuse8 construction failed is skipped by the builder and can
-    then never be a candidate (construction failure is not deterministically reachable). *)
+    then never be a candidate of [=] (construction failure is not deterministically reachable). *)
 Theorem C08b_xor_failed_construction_loses_zone :
   forall (fuse : Type) (fbuild : list N -> option fuse) (fcontains : fuse -> N -> bool),
   forall zones zid cells l,
